@@ -498,7 +498,7 @@ Section Lists.
   (* one element operation on the list cell fc *)
   Lemma mutate_collection_seq sp e inst fc io F :
     leaf_list sp e -> io_plain io -> cstable F ->
-    (forall h, F h -> refcount h fc = 0 \/ only_view ct h fc (TList e)) ->
+    (forall h, Inv ct h -> F h -> refcount h fc = 0 \/ only_view ct h fc (TList e)) ->
     T (fun h => IF F h /\ check_type FUEL ct h (VRef fc) (TList e) = true)
       (mutate_collection ct rec FSeq sp inst (VRef fc) io)
       (fun r h => (IF F h /\ check_type FUEL ct h (VRef fc) (TList e) = true) /\ r = VRef fc)
@@ -560,7 +560,7 @@ Section Lists.
     assert (Step : forall io c, io_plain io -> T (J c) (mutate_collection ct rec FSeq sp inst c io) J (IF F)).
     { intros io c Hio. unfold J. apply T_pull. intros ->.
       eapply T_conseq; [apply (mutate_collection_seq sp e inst fc io G Hl Hio SG)| | |].
-      - intros h [_ [_ Z]]. left. exact Z.
+      - intros h _ [_ [_ Z]]. left. exact Z.
       - auto.
       - auto.
       - intros h [I [Fh _]]. split; auto. }
